@@ -438,6 +438,10 @@ func forallBefore(f *chk.Fn, g *chk.Graph, rs *ast.RangeStmt, phi chk.Guard, sit
 							note(o, 1)
 						case f.KnownNonNil(as.Rhs[i]):
 							note(o, 2)
+						case monotone(f, o, as.Rhs[i]) == token.LOR:
+							note(o, 1) // F = F || x: can only become true
+						case monotone(f, o, as.Rhs[i]) == token.LAND:
+							note(o, 0) // F = F && x: can only become false
 						}
 					}
 				}
@@ -467,7 +471,9 @@ func forallBefore(f *chk.Fn, g *chk.Graph, rs *ast.RangeStmt, phi chk.Guard, sit
 						continue
 					}
 					marking := i < len(as.Rhs) && len(as.Lhs) == len(as.Rhs) &&
-						((k == 0 && f.IsConstBool(as.Rhs[i], false)) || (k == 1 && f.IsConstBool(as.Rhs[i], true)) || (k == 2 && f.KnownNonNil(as.Rhs[i])))
+						((k == 0 && (f.IsConstBool(as.Rhs[i], false) || monotone(f, fl, as.Rhs[i]) == token.LAND)) ||
+							(k == 1 && (f.IsConstBool(as.Rhs[i], true) || monotone(f, fl, as.Rhs[i]) == token.LOR)) ||
+							(k == 2 && f.KnownNonNil(as.Rhs[i])))
 					if !marking {
 						setBack = true
 					}
@@ -789,4 +795,16 @@ func isObjOrSource(f *chk.Fn, obj types.Object) func(ast.Expr) bool {
 		o := f.ObjOf(e)
 		return o != nil && src[o]
 	}
+}
+
+// monotone: rhs is `F || x` / `x || F` (returns LOR) or `F && x` / `x && F` (returns LAND) for the variable F.
+func monotone(f *chk.Fn, fl types.Object, rhs ast.Expr) token.Token {
+	be, ok := ast.Unparen(rhs).(*ast.BinaryExpr)
+	if !ok || (be.Op != token.LOR && be.Op != token.LAND) {
+		return token.ILLEGAL
+	}
+	if f.ObjOf(be.X) == fl || f.ObjOf(be.Y) == fl {
+		return be.Op
+	}
+	return token.ILLEGAL
 }
